@@ -395,6 +395,15 @@ class GenProxy:
                 self._f._log(site, "gen.random", self._stretch_v, True)
                 return self._stretch_v
         v = self._g.random(size, *a, **k)
+        if size is not None and site is not None and self._over(site):
+            # legal-but-rare initial draws: some entries at the extremes of (0, 1)
+            v = np.array(v, dtype=float)
+            flat = v.reshape(-1)
+            for i in range(len(flat)):
+                if self._bug.random() < 0.3:
+                    flat[i] = self._bug.choice([1e-6, 0.9999999, 0.5])
+            self._f._log(site, "gen.random", flat.tolist(), True)
+            return v
         self._f._log(site, "gen.random", np.asarray(v).tolist(), False)
         return v
 
